@@ -177,7 +177,7 @@ TABLE_CANARIES = [
 
 def main(tier):
     ck = Check(PID, tier)
-    ts = K.INIT_TARGETS + K.UPDATE_TARGETS
+    ts = K.INIT_TARGETS + K.UPDATE_TARGETS + K.INIT_TARGETS_RENAMED + K.UPDATE_TARGETS_RENAMED
     only = ["steady state of its own gate", "closed-form update of its own gate", "returns exactly", "in [0,1]"]
     run_all(ck, tier, ts, CANARIES, only=only, replay=lambda t, r: (replay_fixed_point(t, r), {"kind": "c14", "replay_module": "jxverif.props.C14", "target": t}))
     outs = run_units("jxverif.props.C14", "lemma_worker", [(n, tier) for n in K.CHANNELS if K.CHANNELS[n]["gates"]], nproc=1)
